@@ -175,7 +175,40 @@ func (tr *FnTr) newObject(base string) *Term {
 	curEpoch++
 	tr.st.Alloc = tr.vc.Def("alloc", Add(tr.st.Alloc, Int(1)))
 	tr.st.Mem = tr.vc.Def("mem", Store(tr.st.Mem, obj, zeroArr))
+	// Object ids are unique along every path, not across paths: allocations on mutually
+	// exclusive branches may share an id term. Everything that singles out "private"
+	// objects by id must therefore know every allocation site that can own the id.
+	top := tr.top
+	if top.owners == nil {
+		top.owners = map[string][]objOwner{}
+	}
+	k := obj.Key()
+	top.owners[k] = append(top.owners[k], objOwner{})
+	if privObjKeys != nil {
+		delete(privObjKeys, k) // re-established by the Alloc case when every owner is private
+	}
 	return obj
+}
+
+// objOwner: one allocation site that can own an object id.
+type objOwner struct {
+	a       *ssa.Alloc // nil: make, new in a model, fresh result of a call, ...
+	private bool       // a != nil and its address never leaves the function
+	depth   int
+}
+
+// idAllPrivate: is every allocation site that may own this id a private local?
+func (top *FnTr) idAllPrivate(obj *Term) bool {
+	os := top.owners[obj.Key()]
+	if len(os) == 0 {
+		return false
+	}
+	for _, o := range os {
+		if !o.private {
+			return false
+		}
+	}
+	return true
 }
 
 func (tr *FnTr) nilCheck(obj *Term, p token.Pos) {
@@ -190,9 +223,13 @@ func (tr *FnTr) instr(in ssa.Instruction) {
 		return
 	case *ssa.Alloc:
 		obj := tr.newObject(tr.vname(x))
+		{
+			os := tr.top.owners[obj.Key()]
+			os[len(os)-1] = objOwner{a: x, private: tr.private[x], depth: tr.depth}
+		}
 		if tr.private[x] {
 			tr.top.privObjs = append(tr.top.privObjs, obj)
-			if privObjKeys != nil {
+			if privObjKeys != nil && tr.top.idAllPrivate(obj) {
 				privObjKeys[obj.Key()] = true
 			}
 			if tr.depth == 0 {
